@@ -50,10 +50,19 @@ def build_types(w, rng, ntypes, depth):
             u = ["gen", t[1], [g.cls() if rng.random() < 0.5 else a for a in t[2]]]
             if u not in tys:
                 tys.append(u)
+        if t[0] == "gen" and t[1] in g.generic_user:
+            # an alias of a related origin (a generic class deriving from / derived by this one), with the same or
+            # with perturbed arguments, and the bare related origin
+            rel = [c for c in g.generic_user if c != t[1] and (issubclass(w.classes[c], w.classes[t[1]]) or issubclass(w.classes[t[1]], w.classes[c]))]
+            if rel:
+                o2 = rng.choice(rel)
+                for u in (["gen", o2, [g.cls() if rng.random() < 0.6 else a for a in t[2]]], ["cls", o2], ["cls", t[1]]):
+                    if u not in tys:
+                        tys.append(u)
     for c in rng.sample(range(w.n), min(3, w.n)):
         if ["cls", c] not in tys:
             tys.append(["cls", c])
-    return tys[:22]
+    return tys[:24]
 
 
 def _first_nondown(t):
@@ -118,7 +127,8 @@ def worker(payload):
     rng = random.Random(seed)
     scs, keep = [], []
     for _ in range(n):
-        w = make_world(rng)
+        # one world in four is rich in generic classes deriving from each other (aliases of related origins)
+        w = make_world(rng, generics=0.45) if rng.random() < 0.25 else make_world(rng)
         tys = build_types(w, rng, ntypes, depth)
         ords, subs, objs = impl_matrix(w, tys)
         tables = w.tables()
